@@ -51,6 +51,16 @@ def opValidate (j : Json) : R Json := do
   let limit : Option Nat := match (j.getObjVal? "limit").bind (·.getNat?) with
     | .ok n => some n
     | .error _ => none
+  -- `pre`: set_type's transform as a table (field, value) ↦ value, applied to every checked field before the cast
+  let preTab ← (arrD j "pre").toList.mapM (fun e => do
+    let a ← e.getArr?
+    if h : a.size = 3 then return (← a[0].getStr?, ← decVal a[1], ← decVal a[2])
+    else throw "pre triple expected")
+  let tr : String → Val → Val := fun f v =>
+    match preTab.find? (fun e => e.1 == f && e.2.1 == v) with
+    | some e => e.2.2
+    | none => v
+  let rows := if (j.getObjVal? "pre").toOption.isSome then rows.map (transformRow tr fields) else rows
   let result := if chain then Load.loadChain cast pol res fields post limit rows
                 else schemaValidator cast pol res fields rows
   match result with
